@@ -45,8 +45,9 @@ TRUSTED_BASE = ["Lean 4.33 kernel; axioms allowed: propext, Classical.choice, Qu
                 "harness/stream.c (chunk feeder in place of the socket layer, dispatch hook, stack scribbling) + generators + string comparison",
                 "M (CoapVerif/Model/StreamReader.lean) and M_ws (Model/WsReader.lean) are hand transcriptions of the TCP / WebSocket "
                 "readers; checked against the compiled code only on the cases run",
-                "WebSocket: SHA-1/base64 of the accept hash and base64 decoding of the key are oracles; coap_ws_close's draining is "
-                "exercised by the harness but not modelled",
+                "WebSocket: SHA-1/base64 of the accept hash and base64 decoding of the key are oracles; coap_ws_close's draining "
+                "(model closeDrain) is tied to the code by the `wsclose` lines (recv_close, bytes left unread); select() on the "
+                "socket is taken to report readable exactly while bytes are pending",
                 "source hook coap_verif_dispatch_hook (guarded by COAP_VERIF_HOOKS) reports the PDUs entering coap_dispatch"]
 ASSUMPTIONS = ["the transport returns the bytes of the stream in order, in arbitrary non-empty pieces, and never an error (a read "
                "error / EOF closes the session by design)",
@@ -515,6 +516,44 @@ def gen_ws_hostile_hs(ctx, n_streams):
     return out
 
 
+def gen_ws_close(ctx, n_streams):
+    """`wsclose`: the application closes an established session while bytes are pending: coap_ws_close sends its Close
+    frame and drains the socket (at most 5 coap_ws_read calls into a 100-byte buffer) for the peer's Close frame.
+    Ties the model's `closeDrain` (recv_close, bytes left unread) to the code; no S column."""
+    rng = ctx.rng
+    out = []
+    for i in range(n_streams):
+        mode = rng.choice(["c", "s"])
+        masked = mode == "s"
+        hs = W.handshake(mode, rng, rng.choice([0, 0, 2]))
+        mk = lambda: G.rbytes(rng, 4) if masked else None
+        before = [ws_frame(rng, mode, ws_msg(rng, 0)) for _ in range(rng.choice([0, 1, 2]))]
+        pend = []
+        for _ in range(rng.choice([0, 1, 2, 3, 4, 5, 6, 8])):
+            c = rng.randrange(10)
+            if c < 4: pend.append(ws_frame(rng, mode, ws_msg(rng, 0)))
+            elif c == 4: pend.append(W.frame(b"", masked, mask=mk(), lenform=rng.choice([None, 16, 64])))
+            elif c == 5: pend.append(W.frame(G.rbytes(rng, rng.choice([90, 99, 100, 101, 126, 300, 1472, 1473])), masked, mask=mk()))
+            elif c == 6: pend.append(W.frame(b"", masked, mask=mk()) * rng.choice([3, 10, 30]))
+            elif c == 7: pend.append(ws_special(rng, mode))
+            else: pend.append(W.frame(rng.choice([b"", b"\x03\xe8", b"\x03\xe9bye"]), masked, mask=mk(), opcode=W.OP_CLOSE))
+        if rng.random() < 0.6:
+            pend.append(W.frame(b"\x03\xe8", masked, mask=mk(), opcode=W.OP_CLOSE))
+        if pend and rng.random() < 0.2:
+            pend[-1] = pend[-1][:rng.randrange(1, len(pend[-1]) + 1)]
+        head = hs + b"".join(before)
+        stream = head + b"".join(pend)
+        cuts = {len(head)}
+        for d in (-3, -1, 1, 2, 5):          # the close comes inside a frame header / payload
+            if len(hs) <= len(head) + d <= len(stream):
+                cuts.add(len(head) + d)
+        if rng.random() < 0.1:
+            cuts.add(rng.randrange(1, len(hs)))     # handshake not done: nothing to drain
+        for c in sorted(cuts):
+            out.append("wsclose %s %s %d" % (mode, hx(stream), c))
+    return out
+
+
 def generate(ctx, escalate=False):
     if ctx.thorough():
         lines = gen_tcp(ctx, 6000, 40, 60) + gen_ws(ctx, 5000, 16, 80)
@@ -524,6 +563,7 @@ def generate(ctx, escalate=False):
         lines += gen_tcp(ctx, 1500, 22, 8) + gen_ws(ctx, 600, 12, 10)
     lines += gen_ws_empty_runs(ctx, 60 if ctx.thorough() else 12)
     lines += gen_ws_hostile_hs(ctx, 2500 if ctx.thorough() else 300)
+    lines += gen_ws_close(ctx, 3000 if ctx.thorough() else 400)
     ctx.cov["exhaustive"] = ("every 1-, 2- and 3-cut placement of %d TCP streams and of the frame part of %d WS streams"
                              % (ctx.cov.get("exhaustive_streams", 0), ctx.cov.get("ws_exhaustive_streams", 0)))
     return ["consts"] + gen_tcp_cap_boundary(ctx) + lines
@@ -562,6 +602,8 @@ def judge(ctx, c):
 
 
 def nontrivial(c):
+    if c["input"].startswith("wsclose "):
+        return " drain " in (c["model"] or "")
     s = c["spec"] or ""
     return not (s.startswith("n=0 end=open") and "up=1" not in s)
 
@@ -570,6 +612,10 @@ def classify(c):
     w = c["input"].split()
     if w[0] == "consts":
         return "consts"
+    if w[0] == "wsclose":
+        m = c["model"] or ""
+        return "wsclose-%s:%s" % (w[1], "noclose" if "noclose" in m else "recv-close" if "rc=1" in m else
+                                  "drained" if m.endswith("left=0") else "left")
     s = c["spec"] or ""
     ncuts = 0 if w[3] == "-" else w[3].count(",") + 1
     if w[0] == "ws":
